@@ -393,10 +393,30 @@ def run_obligation(ob: Obligation, seed=0):
                 rec["notes"].append("candidate counterexample did not reproduce on the real code")
         elif all_ok:
             rec["status"] = "discharged"
+        if rec["status"] == "discharged" and ob.witness is not None:
+            # concrete witnesses through the real code with plain numpy dtypes: catches what object arrays cannot show
+            # (dtype casts, integer truncation) - a reproduced failure here is a violation found by the harness' own inputs
+            try:
+                for ninputs in ob.witness():
+                    if ob.valid is not None and not ob.valid(ninputs):
+                        continue
+                    ok, detail = numeric_verdict(ob, ninputs)
+                    if not ok:
+                        rec["status"] = "violation"
+                        rec["violation"] = {"source": "harness witness on plain numpy dtypes (symbolic execution discharged the obligation)",
+                                            "inputs": jsonable(ninputs), **detail}
+                        break
+            except SymError:
+                pass
         if ob.tv and rec["status"] in ("discharged", "inconclusive"):
             tv = translator_validation(ob, seed)
-            rec["tv"] = tv
-            if tv is False:
+            rec["tv"] = tv if not isinstance(tv, dict) else False
+            if isinstance(tv, dict):
+                # the symbolic semantics and plain numpy disagree at a concrete point AND the property fails there on the real
+                # code (e.g. a dtype cast that object arrays cannot show): a reproduced violation, not a harness problem
+                rec["status"] = "violation"
+                rec["violation"] = {"source": "translator-validation point: the real code violates the property where symbolic execution (object arrays) does not", **tv}
+            elif tv is False:
                 rec["status"] = "error"
                 rec["notes"].append("translator validation mismatch (symnp on constants vs plain numpy)")
     except SymError as e:
@@ -505,10 +525,26 @@ def translator_validation(ob, seed):
         res, exc = numeric_run(ob, ninputs)
         if (exc is None) != (p.exc is None):
             # tolerance-dependent branches may differ on exact vs float arithmetic only at boundaries
+            try:
+                ok, detail = numeric_verdict(ob, ninputs)
+                if not ok:
+                    return {"inputs": jsonable(ninputs), **detail}
+            except Exception:  # noqa: BLE001
+                pass
             return False
         if exc is not None:
-            return type(exc) is type(p.exc)
-        return bool(eq(_strip(sres), _strip(res), 1e-6))
+            same = type(exc) is type(p.exc)
+        else:
+            same = bool(eq(_strip(sres), _strip(res), 1e-6))
+        if same:
+            return True
+        try:
+            ok, detail = numeric_verdict(ob, ninputs)
+        except Exception:  # noqa: BLE001
+            return False
+        if not ok:
+            return {"inputs": jsonable(ninputs), **detail}
+        return False
     except SymError:
         return None
 
